@@ -655,3 +655,28 @@ Print Assumptions c07_code_trailer.
 Print Assumptions c07_code_parse_input.
 Print Assumptions c07_code_parse_input_frame.
 Print Assumptions c07_code_nonvacuous.
+
+(* ---- the same step through the translated [BodyReader::read] / [read_chunked] (src/body.rs, outer loop included) *)
+From Hoot.proofs Require Import Gen2_equiv_body Gen2_equiv_reader_chunked Gen2_transport.
+Theorem c07_code_read_equiv : forall r src dst stop,
+  limit_fits r src dst -> rd_rel dst (gen_br_read r src dst stop) (reader_read r src (len dst) stop).
+Proof. exact gen_br_read_equiv. Qed.
+(** c07_step, stated about the code: from a decoder state related to a position of a valid coding, one call of the translated
+    [BodyReader::read] on ANY window of the stream and ANY output buffer returns Ok, writes a prefix of the remaining payload at the
+    front of the buffer and nothing else, consumes a prefix of the remaining coding and lands in a related state. *)
+Theorem c07_code_step : forall st R ds rest k dst stop,
+  rel st R ds ->
+  exists st' C R' out ds',
+    gen_br_read (RChunked st) (take k (R ++ rest)) dst stop
+      = Ok (RChunked st', out ++ drop (len out) dst, (len C, len out)) /\
+    R = C ++ R' /\ len C <= k /\
+    concat ds = out ++ concat ds' /\ len out <= len dst /\
+    rel st' R' ds' /\ st' <> DTrailer.
+Proof.
+  intros st R ds rest k dst stop Hrel.
+  destruct (c07_step st R ds rest k (len dst) stop Hrel) as (st' & C & R' & out & ds' & Hr & H1 & H2 & H3 & H4 & H5 & H6).
+  exists st', C, R', out, ds'. repeat split; try assumption.
+  apply gen_read_ok_of_model; [exact I|]. apply c07_step_reader. exact Hr.
+Qed.
+Print Assumptions c07_code_read_equiv.
+Print Assumptions c07_code_step.
